@@ -54,6 +54,29 @@ pub proof fn ax_div_unit(a: Rg, p: Rg) requires rg_unit(p) ensures rg_mul(rg_div
 #[verifier::external_body]
 pub proof fn ax_key(a: Rg) ensures rg_akey(a) >= 0real, rg_unit(a) <==> rg_akey(a) > 0real { }
 
+pub uninterp spec fn rg_one() -> Rg;
+/// `r / x` for a float r (what `f64 / &T` computes); only `1.0 / x` is used: the reciprocal
+pub uninterp spec fn rg_sdiv(r: real, x: Rg) -> Rg;
+#[verifier::external_body]
+pub proof fn ax_mul_one(a: Rg) ensures rg_mul(a, rg_one()) == a { }
+/// the reciprocal of an invertible element
+#[verifier::external_body]
+pub proof fn ax_recip(x: Rg) requires rg_unit(x) ensures rg_mul(rg_sdiv(1real, x), x) == rg_one(), rg_unit(rg_sdiv(1real, x)) { }
+/// products of invertible elements are invertible, and only those
+#[verifier::external_body]
+pub proof fn ax_unit_mul(a: Rg, b: Rg) ensures rg_unit(rg_mul(a, b)) <==> (rg_unit(a) && rg_unit(b)) { }
+
+impl<'b> vstd::std_specs::ops::DivSpecImpl<&'b Rg> for super::r64_shim::R64 {
+    open spec fn obeys_div_spec() -> bool { true }
+    open spec fn div_req(self, rhs: &'b Rg) -> bool { true }
+    open spec fn div_spec(self, rhs: &'b Rg) -> Rg { rg_sdiv(self@, *rhs) }
+}
+impl<'b> core::ops::Div<&'b Rg> for super::r64_shim::R64 {
+    type Output = Rg;
+    #[verifier::external_body]
+    fn div(self, rhs: &'b Rg) -> (r: Rg) { unimplemented!() }
+}
+
 /// the key compared by `partial_cmp` on ring elements themselves (f64: the value; Dual/Dual2: the real part)
 pub uninterp spec fn rg_okey(a: Rg) -> real;
 pub uninterp spec fn rg_abs(a: Rg) -> Rg;
